@@ -104,6 +104,29 @@ def run_batch(lib, behs, wfd, tmo):
     os._exit(0)
 
 
+class LazyBehs:
+    """the behaviours of one worker, parsed from the input file when a batch is taken"""
+    def __init__(self, path, offsets, ids):
+        self.path, self.offsets, self.ids = path, offsets, ids
+        self.f = None
+
+    def __len__(self):
+        return len(self.offsets)
+
+    def _load(self, k):
+        if self.f is None:
+            self.f = open(self.path, "rb")
+        self.f.seek(self.offsets[k])
+        b = json.loads(self.f.readline())
+        b.setdefault("id", self.ids[k])
+        return b
+
+    def __getitem__(self, sl):
+        if isinstance(sl, slice):
+            return [self._load(k) for k in range(*sl.indices(len(self.offsets)))]
+        return self._load(sl)
+
+
 def worker(lib, behs, outpath, tmo, errpath, batch):
     """one worker: forks a child per batch, writes one result line per behaviour to outpath"""
     out = open(outpath, "w")
@@ -192,13 +215,19 @@ def main():
     lib = load_lib(a.lib)
     for m in a.mods.split(","):
         importlib.import_module(m)
-    behs = [json.loads(l) for l in open(a.inp) if l.strip()]
-    for i, b in enumerate(behs):
-        b.setdefault("id", i)
-    jobs = max(1, min(a.jobs, len(behs)))
+    # the behaviours are not loaded here: a thorough tier's file holds gigabytes of JSON, and every forked
+    # worker would end up with its own copy.  Only the line offsets are kept; a worker parses its lines batch by batch
+    offs = []
+    with open(a.inp, "rb") as f:
+        pos = 0
+        for l in f:
+            if l.strip():
+                offs.append(pos)
+            pos += len(l)
+    jobs = max(1, min(a.jobs, len(offs)))
     pids = []
     for j in range(jobs):
-        part = behs[j::jobs]
+        part = LazyBehs(a.inp, offs[j::jobs], list(range(j, len(offs), jobs)))
         pid = os.fork()
         if pid == 0:
             worker(lib, part, "%s.%d" % (a.out, j), a.timeout, "%s.err%d" % (a.out, j), a.batch)
